@@ -1,5 +1,5 @@
 """Registry: property id -> rule set, level and explanations."""
-from . import p_symbols, p_rs, p_charset, p_modes, p_macro, p_plan, p_codec
+from . import p_symbols, p_rs, p_charset, p_modes, p_macro, p_plan, p_codec, p_wire
 
 PROPS = {}
 
@@ -164,18 +164,54 @@ PROPS["C04"] = {
 
 PROPS["C02"] = {
     "level": "other",
-    "rules": [p_codec.tab_cw, p_codec.tab_sets],
-    "explanation": "(under construction - PROV-SYM and PAD-PATH are added below)",
+    "rules": [p_codec.tab_cw, p_codec.tab_sets, p_wire.prov_sym, p_wire.pad_path, p_rs.prov_rsenc, p_symbols.tab_sym],
+    "explanation": "Clause-level claim. Decided: every codeword constant equals ISO/IEC 16022 Table 2; the encoder-side C40/Text/X12/"
+                   "EDIFACT/ASCII character tables (extracted as per-byte decision tables) equal Annex C / 5.2.7 / 5.2.8 transcribed "
+                   "independently of the decoder, with the 1600/40/1 packing; the returned symbol is symbol_for(0) = the first symbol of "
+                   "the caller's list that is big enough, padding fills exactly to that symbol's data capacity and nothing is written "
+                   "afterwards; add_padding emits unlatch iff not in ASCII, then 129, then 253-state randomised pads for their 1-based "
+                   "positions (formula folded for 2400 positions); encode_error produces k*B error codewords for that size (PROV-RSENC). "
+                   "NOT decided: the 255-state randomisation and length field of Base256, the end-of-symbol rules of the mode encoders "
+                   "and the conformance of every position of every stream - behaviour over run-time positions.",
     "assumptions": ["default cargo features"],
     "technique": "decision-table extraction from THIR against transcribed ISO tables + provenance rules",
 }
 
 PROPS["C01"] = {
     "level": "other",
-    "rules": [p_macro.fld_input, p_codec.tab_codec],
-    "explanation": "(under construction - PROV-PIPE is added below)",
+    "rules": [p_macro.fld_input, p_codec.tab_codec, p_wire.prov_pipe, p_codec.dec_mode],
+    "explanation": "Clause-level claim; the inverse law itself (equality of byte strings over all inputs and configurations) is not "
+                   "decidable statically. Three structural necessary conditions are decided: FLD-INPUT - the encoder's read cursor "
+                   "`.data` always stays a suffix of `.input` (every writer enumerated crate-wide), which backup() relies on; TAB-CODEC - "
+                   "for every byte 0..=255 the value sequence the encoder tables emit (C40, Text, X12, EDIFACT, ASCII) is mapped back to "
+                   "that byte by the decoder's tables (table composition), with the EDIFACT bit packing layout; PROV-PIPE - decode() and "
+                   "encode_eci()/bitmap() pass the same size and the right codeword slices between placement, error correction and data "
+                   "(de)coding. NOT decided: end-of-data logic of the six mode encoders, planner/encoder agreement, placement and RS "
+                   "inverses (C03/C07 clauses cover parts). A mutation inside handle_end arithmetic is NOT detected.",
     "assumptions": ["default cargo features"],
     "technique": "table composition (decoder table o encoder table = identity) + field-writer typestate + provenance",
+}
+
+PROPS["C11"] = {
+    "level": "other",
+    "rules": [p_wire.dom_errcls, p_wire.gate_hint, p_macro.dom_macro, p_plan.sync, p_charset.tab_eci],
+    "explanation": "(Engine B part added below)",
+    "assumptions": ["default cargo features"],
+    "technique": "MIR dominance + provenance rules; LLVM panic-residue census",
+}
+
+PROPS["C10"] = {
+    "level": "other",
+    "rules": [p_symbols.capacity_info, p_wire.gate_hint, p_wire.prov_sym, p_symbols.ord_rule, p_symbols.prov_filter],
+    "explanation": "Clause-level claim (gates and tie-break only). Minimality itself quantifies over every alternative legal encoding of "
+                   "every input; its truth lives in the arithmetic of six cost models and their agreement with six encoders and is NOT "
+                   "decided (known: ABCDEFGH12345678 gets a 16-codeword symbol where ASCII needs 12 - the EDIFACT four-final-digits "
+                   "mismatch). Decided: GATE-CAP - the early `too much data` rejection is sound because every size's capacity().max is "
+                   ">= 2 * data codewords (digit pairs are the densest encodation) and max_capacity() is the maximum over the list; "
+                   "GATE-HINT - the reservation hint is Some for every non-empty list, so it never turns into a refusal; TIE-ORDER - the "
+                   "returned symbol is the first of the BTreeSet order (capacity, then diagonal; keys pairwise distinct) that is big enough.",
+    "assumptions": ["default cargo features"],
+    "technique": "table inequalities + provenance rules over THIR",
 }
 
 NOT_APPLICABLE = {
